@@ -90,6 +90,7 @@ func Race() {
 	}
 	snap := e.Store.Snapshot()
 	e.Store.Yield = true
+	e.Store.YieldStoresOnly = vx.Param("stores_only") == 1
 	vx.SchedOnlyAtYield(true)
 	done := make(chan int, N)
 	for i := range procs {
